@@ -116,14 +116,19 @@ Qed.
 (* sortTarHeaders of a permuted and renamed list: nothing but the renaming shows *)
 Theorem sort_headers_map_perm g hs hs2 :
   (forall h, h_isdir (g h) = h_isdir h) -> NoDup (map ckey hs) -> Permutation hs2 hs ->
-  (forall x, In x hs -> ckey (g x) = ckey x) ->
+  (forall x, In x hs -> ckey (g x) = ckey x) -> (forall x, In x hs -> ckey x <> ".") ->
   sort_headers (map g hs2) = rmap (map g) (sort_headers hs).
 Proof.
-  intros Gd N P K.
+  intros Gd N P K ND0.
+  unfold sort_headers. rewrite (filter_not_dot_id hs ND0).
+  rewrite (filter_not_dot_id (map g hs2)).
+  2:{ intros y Iy. apply in_map_iff in Iy. destruct Iy as (x & <- & Ix).
+      assert (Ix' : In x hs) by (eapply Permutation_in; [exact P|exact Ix]).
+      change (ckey (g x) <> "."). rewrite (K x Ix'). apply ND0, Ix'. }
   assert (KP : forall d, Permutation (kids d hs) (kids d (map g hs2))).
   { intro d. rewrite kids_map by (intros x Ix; apply K; eapply Permutation_in; [exact P|exact Ix]).
     apply kids_perm, Permutation_sym, P. }
-  unfold sort_headers, sort_headers_ord.
+  unfold sort_headers_raw, sort_headers_ord_raw.
   rewrite map_length, (Permutation_length P).
   rewrite (ssort_perm_eq _ _ (Permutation_sym (dc_keys_perm hs (map g hs2) KP))).
   apply sort_children_map; [exact Gd| | |reflexivity].
@@ -303,7 +308,7 @@ Proof.
   { intros x Ix. unfold rec_clean, ckey. cbn [h_name]. destruct (h_isdir x); [|apply clean_idem].
     apply clean_dir_trim. exact (reach_not_root files (ckey x) (envelope_reach files Henv x Ix)). }
   assert (S2 : sort_headers (map rec_clean sorted) = Ok (map rec_clean sorted)).
-  { rewrite (sort_headers_map_perm rec_clean files sorted (fun h => eq_refl) (se_nodup files Henv) Ps C), Es. reflexivity. }
+  { rewrite (sort_headers_map_perm rec_clean files sorted (fun h => eq_refl) (se_nodup files Henv) Ps C (se_nodot files Henv)), Es. reflexivity. }
   (* the second list of file lines *)
   assert (PB : forall h, In h sorted -> h_isdir h = false -> plain_base (h_name h)).
   { intros h Ih. apply (se_base files Henv). eapply Permutation_in; [exact Ps|exact Ih]. }
